@@ -302,6 +302,95 @@ func hasBytesEqual(fd *ast.FuncDecl, ok func(a, b string) bool) bool {
 	return found
 }
 
+// windowExemption finds the early `return nil` guarding the window computation of CheckReplay and
+// evaluates its condition to the list of memo values it holds for. Understood forms: `tx.Memo == C`,
+// `IsRLPMemo(tx.Memo)` (inlined from lib/rlp.go), and `||` of those; C a string constant of lib/rlp.go.
+func windowExemption(cr *ast.FuncDecl) (memos []string, cond string, err error) {
+	idx := -1
+	for i, s := range cr.Body.List {
+		if strings.Contains(g.StmtText(s), "maxHeight, minHeight :=") {
+			idx = i
+			break
+		}
+	}
+	if idx < 1 {
+		return nil, "", fmt.Errorf("fsm/transaction.go: CheckReplay window computation not found")
+	}
+	ifs, ok := cr.Body.List[idx-1].(*ast.IfStmt)
+	if !ok || ifs.Else != nil || ifs.Init != nil || g.StmtsText(ifs.Body.List) != "return nil" {
+		// no exemption at all
+		return nil, "", nil
+	}
+	rf, e := g.ParseFile(filepath.Join(*repo, "lib/rlp.go"))
+	if e != nil {
+		return nil, "", e
+	}
+	consts := map[string]string{}
+	for _, d := range rf.AST.Decls {
+		gd, ok := d.(*ast.GenDecl)
+		if !ok || gd.Tok != token.CONST {
+			continue
+		}
+		for _, sp := range gd.Specs {
+			vs := sp.(*ast.ValueSpec)
+			for i, n := range vs.Names {
+				if i < len(vs.Values) {
+					if bl, ok := vs.Values[i].(*ast.BasicLit); ok && bl.Kind == token.STRING {
+						if v, e := strconv.Unquote(bl.Value); e == nil {
+							consts[n.Name] = v
+						}
+					}
+				}
+			}
+		}
+	}
+	var eval func(e ast.Expr, subject string) ([]string, error)
+	eval = func(e ast.Expr, subject string) ([]string, error) {
+		switch x := e.(type) {
+		case *ast.ParenExpr:
+			return eval(x.X, subject)
+		case *ast.BinaryExpr:
+			if x.Op == token.LOR {
+				a, e1 := eval(x.X, subject)
+				if e1 != nil {
+					return nil, e1
+				}
+				c, e2 := eval(x.Y, subject)
+				if e2 != nil {
+					return nil, e2
+				}
+				return append(a, c...), nil
+			}
+			if x.Op == token.EQL {
+				l, r := g.ExprText(x.X), g.ExprText(x.Y)
+				if r == subject {
+					l, r = r, l
+				}
+				if l == subject {
+					name := r[strings.LastIndex(r, ".")+1:]
+					if v, ok := consts[name]; ok {
+						return []string{v}, nil
+					}
+				}
+			}
+		case *ast.CallExpr:
+			fn := g.ExprText(x.Fun)
+			if (fn == "IsRLPMemo" || fn == "lib.IsRLPMemo") && len(x.Args) == 1 && g.ExprText(x.Args[0]) == subject {
+				fd := rf.FindFunc("", "IsRLPMemo")
+				if fd != nil && len(fd.Body.List) == 1 && len(fd.Type.Params.List) == 1 && len(fd.Type.Params.List[0].Names) == 1 {
+					if rs, ok := fd.Body.List[0].(*ast.ReturnStmt); ok && len(rs.Results) == 1 {
+						return eval(rs.Results[0], fd.Type.Params.List[0].Names[0].Name)
+					}
+				}
+			}
+		}
+		return nil, fmt.Errorf("fsm/transaction.go: CheckReplay window exemption %q is outside the understood forms", g.ExprText(e))
+	}
+	memos, err = eval(ifs.Cond, "tx.Memo")
+	sort.Strings(memos)
+	return memos, g.ExprText(ifs.Cond), err
+}
+
 func genProto() (string, error) {
 	var b strings.Builder
 	b.WriteString("namespace Canopy.Gen.Proto\n\n")
@@ -458,6 +547,22 @@ func genProto() (string, error) {
 		return "", fmt.Errorf("fsm/transaction.go: CheckReplay window computation not found")
 	}
 	fmt.Fprintf(&b, "/-- the acceptance-window tail of `CheckReplay` -/\ndef src_CheckReplay_window : String := %q\n", win)
+	// the memo exemption from the window: the `if <cond> { return nil }` right before the window
+	// computation; <cond> is evaluated to the set of memo strings it is true for
+	exempt, condText, err := windowExemption(cr)
+	if err != nil {
+		return "", err
+	}
+	fmt.Fprintf(&b, "/-- condition of the early return of `CheckReplay` that skips the created-height window -/\ndef src_windowExemption : String := %q\n", condText)
+	var ex []string
+	for _, m := range exempt {
+		var bs []string
+		for _, c := range []byte(m) {
+			bs = append(bs, strconv.Itoa(int(c)))
+		}
+		ex = append(ex, "["+strings.Join(bs, ", ")+"]")
+	}
+	fmt.Fprintf(&b, "/-- the memos (UTF-8 bytes) that condition is true for: %s -/\ndef windowExemptMemos : List (List UInt8) := [%s]\n", strings.Join(exempt, " | "), strings.Join(ex, ", "))
 	var head []string
 	for _, s := range cr.Body.List {
 		t := g.StmtText(s)
